@@ -826,7 +826,13 @@ impl StableHash for std::path::PathBuf {
 
 impl StableHash for std::path::Path {
     fn stable_hash<H: StableHasher + ?Sized>(&self, state: &mut H) {
-        self.as_os_str().stable_hash(state);
+        // `Path` equality compares components (`a/b == a//b == a/./b`), so
+        // the components are what is hashed, not the raw bytes
+        state.write_length_prefix(self.components().count());
+
+        for component in self.components() {
+            component.as_os_str().stable_hash(state);
+        }
     }
 }
 
